@@ -1,5 +1,5 @@
 """Crash/fault index slices per (kind, operation): shared by harness/gen.py and vf/registry.py."""
-OPS = ('pack', 'pack_clean', 'direct', 'direct_noholes', 'loose', 'loose_damaged', 'delete', 'repack', 'import', 'pack_nofsync', 'direct_nofsync')
+OPS = ('pack', 'pack_clean', 'direct', 'direct_noholes', 'loose', 'loose_damaged', 'pack_pending', 'delete', 'repack', 'import', 'pack_nofsync', 'direct_nofsync')
 NOFSYNC = ('pack_nofsync', 'direct_nofsync')  # not part of C06 (default fsync settings only)
 WIDE = ((1, 12), (13, 24), (25, 36), (37, 50))
 NARROW = ((1, 6), (7, 12), (13, 18), (19, 24), (25, 30), (31, 36), (37, 50))
